@@ -93,5 +93,20 @@ func directed() []dscript {
 		put(0, "k4", "v4", 1004), {Kind: "sync"}, put(1, "k5", "v5", 1005), {Kind: "reopen"}, {Kind: "allow", N: 9},
 		put(0, "k6", "v6", 1006), {Kind: "allow", N: 9},
 	}})
+	// D13: shrunk from thorough seed 2 script 202 (embedded values, unsynced, MaxTxEntries 2): a call whose
+	// context is cancelled (or whose tx was cancelled) before it starts leaves nothing behind, and the next
+	// valid commit takes the next id. That script once disagreed with the model because the harness's own
+	// wait limit had cancelled the context of a valid call on a stalled machine (see runCommit).
+	c = base(false, true, false)
+	c.MaxActive, c.MaxEntries = 4, 2
+	l = append(l, dscript{c, []*Step{
+		put(1, "user:1", "v1", 1002), put(2, "a", "v2", 1004), {Kind: "discard", N: 3},
+		{Kind: "pre", C: 1, Ents: []Ent{{Key: []byte("x"), Val: []byte("1")}, {Key: []byte("y"), Val: []byte("2")}, {Key: []byte("z"), Val: []byte("3")}}, Ts: 1005},
+		{Kind: "mkrepl", Ts: 1006}, {Kind: "reopen"}, put(2, "k2", "v4", 1011), {Kind: "allow", N: 7},
+		{Kind: "pre", C: 1, Ents: []Ent{{Key: []byte("key-4"), Val: []byte("c")}}, Ts: 1016, Cancel: "cancel"},
+		{Kind: "pre", C: 3, Ents: []Ent{{Key: []byte("k1"), Md: []byte{0}, Val: []byte("after-cancel")}}, Ts: 1018},
+		{Kind: "pre", C: 1, Ents: []Ent{{Key: []byte("key-4"), Val: []byte("c")}}, Ts: 1019, Cancel: "ctx"},
+		put(2, "f22-0", "after-ctx", 1020), {Kind: "reopen"},
+	}})
 	return l
 }
